@@ -288,7 +288,8 @@ def _mkspec(rng, kind):
                 'sdate': 2002154, 'stime': 0.}
     if kind == 'icartt':
         return {'nvars': rng.randrange(1, 4), 'nrec': rng.randrange(1, 6),
-                'holes': [[0, 0]] if rng.random() < 0.5 else []}
+                'holes': [[0, 0]] if rng.random() < 0.5 else [],
+                'dupname': rng.random() < 0.3}
     if kind in ('nc3', 'nc4'):
         return files.gen_spec(rng)
     if kind == 'ioapi_nc':
@@ -362,10 +363,13 @@ def gen_op(rng, st):
         st.prologue = []
         for kind in c['kinds']:
             spec = _mkspec(rng, kind)
-            variants = rng.sample(['conv', 'none', 'mislead'], rng.randrange(1, 4))
+            variants = rng.sample(['conv', 'none', 'mislead', 'upper'], rng.randrange(1, 5))
             for v in variants:
                 if v == 'conv':
                     name = 'f%d.%s' % (st.gfid, rng.choice(KINDS[kind][0]))
+                elif v == 'upper':
+                    # the conventional suffix in capitals (files from other systems)
+                    name = 'F%d.%s' % (st.gfid, rng.choice(KINDS[kind][0]).upper())
                 elif v == 'none':
                     name = 'f%d' % st.gfid
                 else:
